@@ -239,6 +239,7 @@ Inductive c10case :=
 | CRace (a b : N)                 (* a data-race report whose two stacks map to rows a and b *)
 | CRead (value by_ : Z)           (* a reader received (value, updatedBy) *)
 | CEvent (value by_ : Z)          (* a subscriber received a New/Modified event carrying (value, updatedBy) *)
+| CEventDup (value by_ : Z)       (* ... whose version an earlier event of the same key already carried *)
 | CQuiet (reads writes : N).      (* a child run finished; counters *)
 
 Definition find_row (id : N) : option row := find (fun r => N.eqb (r_id r) id) table.
@@ -257,6 +258,8 @@ Fixpoint pair_index (p : N * N) (l : list (N * N)) (i : N) : option N :=
    50 a read returned fields of two different versions;
    51 an event carried fields of two different versions (the event record is converted under
       the writer's guard, so unlike 50 this is not explained by the lock-free getters);
+   52 two events of one key carried the same version: an event record was converted after
+      the writer had left its guarded section and shows a later writer's version;
    100 + i: the race is the i-th predicted racy pair of the table *)
 Definition check_case (c : c10case) : N :=
   match c with
@@ -273,6 +276,7 @@ Definition check_case (c : c10case) : N :=
       end
   | CRead v b => if Z.eqb v b then 0%N else 50%N
   | CEvent v b => if Z.eqb v b then 0%N else 51%N
+  | CEventDup _ _ => 52%N
   | CQuiet _ _ => 0%N
   end.
 
